@@ -32,7 +32,7 @@ TRUSTED = ['correspondence harness (pv.engine, pv.proto) and generators / refere
            'Lean driver parser/printer (PygModel/Basic.lean, PerDictDriver.lean)']
 ASSUMPTIONS = ['"today" is injected by rebinding pyg_base._perdictable.dt during the call (the code reads the clock through dt(0))',
                'the lifted function is pure apart from the call log; python keyword binding of the row to f is assumed (kwargs_support, C18)',
-               'renames None or a dict parameter -> column, if_none=False, output_is_input=True, include_inputs=False, a function without .output; keys unique per table (the code only warns otherwise)',
+               'renames None or a dict parameter -> column, if_none False or True, output_is_input=True, include_inputs=False, a function without .output; keys unique per table (the code only warns otherwise)',
                'row order among rows with equal `on` keys (only possible when a table lacks an `on` column) depends on a python set order in dict_concat and is not compared']
 CALL_TIMEOUT = 8
 D = datetime.datetime
@@ -172,10 +172,13 @@ def gen_case(rng, full=False):
         tag += '+defaults'
     if renames:
         tag += '+renames'
+    if_none = has_table and rng.random() < 0.15
+    if if_none:
+        tag += '+if_none'
     line = '(pd %s (L%s) (L%s)%s (D%s) (D%s) %s T:%d)' % (
-        'callr' if renames else 'call',
+        'callr' if (renames or if_none) else 'call',
         ''.join(' S:' + hexs(p) for p in params), ''.join(' S:' + hexs(c) for c in on),
-        (' (D%s)' % ''.join(' (%s %s)' % (hexs(k), cell(v)) for k, v in renames)) if renames else '',
+        (' (D%s) %s' % (''.join(' (%s %s)' % (hexs(k), cell(v)) for k, v in renames), cell(bool(if_none)))) if (renames or if_none) else '',
         ''.join(' (%s %s)' % (hexs(k), cell(v)) for k, v in defaults),
         ''.join(' (%s %s)' % (hexs(k), enc_input(v)) for k, v in inputs),
         enc_input(expiry), proto.dt2us(TODAY))
@@ -204,21 +207,23 @@ def dec_input(sx):
 
 
 def get_renames(sx):
-    return {unhex(kv[0]): proto.dec(kv[1]) for kv in sx[4][1:]} if sx[1] == 'callr' else None
+    return ({unhex(kv[0]): proto.dec(kv[1]) for kv in sx[4][1:]} or None) if sx[1] == 'callr' else None
 
 
 def call_impl(sx):
     params = [proto.dec_cell(a) for a in sx[2][1:]]
     on = [proto.dec_cell(a) for a in sx[3][1:]]
     renames = get_renames(sx)
+    if_none = False
     if sx[1] == 'callr':
-        sx = sx[:4] + sx[5:]
+        if_none = proto.dec(sx[5])
+        sx = sx[:4] + sx[6:]
     defaults = {unhex(kv[0]): proto.dec(kv[1]) for kv in sx[4][1:]}
     inputs = {unhex(kv[0]): dec_input(kv[1]) for kv in sx[5][1:]}
     expiry = dec_input(sx[6])
     today = proto.dec_cell(sx[7])
     log = []
-    p = pyg_base.perdictable(make_f(params, log), on=on, defaults=defaults, renames=renames)
+    p = pyg_base.perdictable(make_f(params, log), on=on, defaults=defaults, renames=renames, if_none=if_none)
     old = _pd.dt
     _pd.dt = lambda *a, **k: today
     try:
@@ -285,7 +290,12 @@ def compare(case, i, line, ir, mr):
 
 
 def nontrivial(line, reply):
-    return reply.startswith('ok') and '(D (' in line.split(') (D', 3 if line.startswith('(pd callr ') else 2)[-1]
+    if not reply.startswith('ok'):
+        return False
+    sx = proto.parse(line)
+    k = 7 if sx[1] == 'callr' else 5
+    is_table = lambda v: isinstance(v, list) and len(v) > 0 and v[0] == 'D'   # noqa: E731
+    return any(is_table(kv[1]) for kv in sx[k][1:]) or is_table(sx[k + 1])
 
 
 # ------------------------------------------------------------------ laws: the statement on the implementation alone
@@ -313,6 +323,7 @@ def laws(rng, tier, ctx):
         count += 1
         try:
             renames = get_renames(sx) or {}
+            if_none = sx[1] == 'callr' and proto.dec(sx[5])
             res, log, inputs, on, params, defaults, expiry, today = call_impl(sx)
         except Timeout:
             yield Finding('violation', case, 'the call did not return')
@@ -349,7 +360,7 @@ def laws(rng, tier, ctx):
                     vals.append(inputs[p])
             old = lookup(inputs['data'], on, k)[0] if 'data' in inputs else None
             ex = lookup(expiry, on, k)[0] if isinstance(expiry, dictable) else expiry
-            keep = 'data' in inputs and ex is not None and ex < today
+            keep = 'data' in inputs and ex is not None and ex < today and not (if_none and old is None)
             rows[k] = (tuple(vals), keep, old)
         if not K:
             if not (res is None or ('data' in inputs and res is inputs['data'])):
